@@ -508,6 +508,72 @@ fn scenario_routing(args: &Args, report: &mut Report) {
             // ---------------- scrape
             let variant = r.below(6);
             let hs: Vec<[u8; 20]> = (0..(1 + r.usize(5))).map(|_| if r.chance(1, 5) { hash_n(0x85, r.below(4) as u8, 7) } else { torrents[r.usize(torrents.len())] }).collect();
+            if variant >= 4 && r.chance(1, 2) {
+                // ---- pipelined burst: several scrapes in flight at once on one connection (the socket worker keeps one
+                // pending entry per scrape and merges the partial replies of the swarm workers into the right one)
+                let k = 2 + r.usize(3);
+                let lists: Vec<Vec<[u8; 20]>> = (0..k).map(|_| (0..(1 + r.usize(4))).map(|_| torrents[r.usize(torrents.len())]).collect()).collect();
+                let desc = format!("#{} slot {} {} pipelined scrapes {:?}", opi, s, k, lists.iter().map(|l| l.iter().map(|h| h[1]).collect::<Vec<_>>()).collect::<Vec<_>>());
+                w.script.push(desc.clone());
+                for l in lists.iter() {
+                    let _ = w.slots[s].conn.as_mut().unwrap().send_text(&scrape_json(Some(l), false));
+                }
+                report.eval();
+                let t0 = Instant::now();
+                let mut got: Vec<(usize, Msg)> = Vec::new();
+                while t0.elapsed() < Duration::from_millis(12_000) && got.iter().filter(|(slot, _)| *slot == s).count() < k {
+                    w.pump_all(2);
+                    got.extend(w.take_new());
+                }
+                w.pump_all(8);
+                got.extend(w.take_new());
+                for (slot, m) in got.iter().filter(|(slot, _)| *slot != s) {
+                    fail!("ws.live.unexpected_message", "routing", format!("{}: connection {} received {:?}", desc, slot, format!("{:?}", m).chars().take(80).collect::<String>()));
+                }
+                let mine: Vec<&Msg> = got.iter().filter(|(slot, _)| *slot == s).map(|(_, m)| m).collect();
+                if mine.len() != k {
+                    fail!(if mine.len() < k { "ws.live.scrape_not_answered" } else { "ws.live.scrape_reply_count" }, "routing", format!("{}: {} replies to {} scrapes", desc, mine.len(), k));
+                    continue;
+                }
+                // every reply must be the correct answer to one of the requests (perfect matching; k <= 4)
+                let fits = |m: &Msg, list: &Vec<[u8; 20]>| -> bool {
+                    match m {
+                        Msg::ScrapeReply { files } => {
+                            files.iter().all(|f| list.contains(&f.0) && {
+                                let (sdr, l) = w.model.counts(fam, &f.0);
+                                (f.1 as usize, f.2 as usize) == (sdr, l)
+                            }) && list.iter().all(|h| {
+                                let (sdr, l) = w.model.counts(fam, h);
+                                sdr + l == 0 || files.iter().any(|f| f.0 == *h)
+                            })
+                        }
+                        _ => false,
+                    }
+                };
+                fn assign(i: usize, used: &mut Vec<bool>, ok: &Vec<Vec<bool>>) -> bool {
+                    if i == ok.len() {
+                        return true;
+                    }
+                    for j in 0..used.len() {
+                        if !used[j] && ok[i][j] {
+                            used[j] = true;
+                            if assign(i + 1, used, ok) {
+                                return true;
+                            }
+                            used[j] = false;
+                        }
+                    }
+                    false
+                }
+                let ok: Vec<Vec<bool>> = mine.iter().map(|m| lists.iter().map(|l| fits(m, l)).collect()).collect();
+                if !assign(0, &mut vec![false; k], &ok) {
+                    fail!("ws.live.pipelined_scrapes_mixed_up", "routing", format!("{}: the {} replies are not the correct answers to the {} requests: {:?}", desc, k, k, mine.iter().map(|m| format!("{:?}", m).chars().take(120).collect::<String>()).collect::<Vec<_>>()));
+                }
+                let workers: BTreeSet<usize> = lists.iter().flatten().map(|x| x[0] as usize % ww).collect();
+                report.nontrivial(vcore::fnv(format!("pipelined_scrapes/{}/{}/{}", w.label, k, workers.len()).as_bytes()));
+                report.count("pipelined_scrape_bursts");
+                continue;
+            }
             let (msg, expect_error, list): (String, bool, Vec<[u8; 20]>) = match variant {
                 0 => (scrape_json(None, false), true, vec![]),
                 1 => (scrape_json(Some(&[]), false), false, vec![]),
